@@ -38,7 +38,8 @@ CLAIMED = {
              "checks non-negativity and the data-reproduction/equation identities on them. kalman_filter(return_info=True) is compared group by "
              "group, period by period, with these moments, and the likelihood, its contributions (zero without observations) and var_scale with "
              "the exact prediction-error decomposition, in level and deviation mode; with rescale_variance the likelihood concentrated at the maximum-likelihood "
-             "scale and the rescaled smoothed moments, also on a two-variant model whose variants are rescaled separately. For unit-root models (no exact moments) the recursion clauses are evaluated on the output: prediction "
+             "scale, the contributions at the rescaled variances and the rescaled smoothed moments, also on a two-variant model whose variants are rescaled separately; "
+             "time-varying standard deviations supplied as data (stds_from_data) enter the joint distribution as an extra shock variance in single periods. For unit-root models (no exact moments) the recursion clauses are evaluated on the output: prediction "
              "step, update without observation, last period, predicted measurement.",
         note="Trusted: TLC, numpy. Bounds: 4 stationary library models (1-2 states, 1-2 observables, lagged state in the measurement equation), 3 periods, "
              "3-4 missing-data masks, 2x2 variance settings. Unit-root (diffuse) initialisation is not covered by exact moments.",
@@ -49,7 +50,8 @@ CLAIMED = {
              "equation with the smoothed shocks. On kalman_filter's output the same clauses are evaluated with the structural form emitted by the "
              "spec, values are compared with the spec, the model is re-simulated from the smoothed initial condition and shocks, deviation mode "
              "is compared with level mode minus steady state, under three histories of the solved model; clause-only scenarios add a unit-root "
-             "model observed in levels and forward-looking models with anticipated shocks given as data.",
+             "model observed in levels and forward-looking models with anticipated shocks given as data; models with two observables are also "
+             "run with their measurement equations rendered as a simultaneous block (ModelLib.SourceB: same meaning, non-symmetric Jacobian).",
         note="Trusted: TLC, numpy. Bounds as C03; for the unit-root and anticipated-shock scenarios only the clauses (not exact moments) are decided. "
              "Transition equations and re-simulation are checked from the second filter period on.",
         design="5/C08", technique="TLA+ spec (KalmanMC over GaussSS) model-checked by TLC; TLC-computed scenarios and the spec-emitted structural form replayed into irispie"),
@@ -95,7 +97,8 @@ CLAIMED = {
              "under terminal x initial_guess in {first_order, data}^2 and period_by_period for backward-looking models: the path is compared with the "
              "spec path (= first-order path for the linear models), the reported frames with the spec's partition, each frame's databox with the slices "
              "written back, measurement variables with their inputs, and every equation is re-evaluated frame by frame with the shocks visible in the "
-             "frame and the terminal condition in force.",
+             "frame and the terminal condition in force. Two library models are also run as the two variants of ONE parametric model on a two-variant databox whose "
+             "variants have their surprises in different periods (own frames per variant) and which carries stale parameter entries that must not be used.",
         note="Trusted: TLC, numpy, the neqs Newton solver (success is a precondition; step_tolerance disabled because neqs stops exactly solved systems with "
              "'cannot make further progress'). Bounds: 6 linear/log-linear models x 144 level scenarios of 4 periods, nonlinear T1/T2/T3 of 3 periods; "
              "no deviation mode (stacked time has none); plans under stacked_time are exercised in C07.",
@@ -104,10 +107,11 @@ CLAIMED = {
         text="PlansMC.tla takes targets from an ordinary LinearRE simulation, endogenizes the same shocks (anticipated or unanticipated, prior "
              "input 0 or 1/2), solves for the instruments through the exact impact matrix and TLC checks that they are the original shocks and that "
              "the planned path satisfies the structural equations; every non-singular scenario is run through SimulationPlan + simulate(plan=...) "
-             "under method first_order and, in level mode, stacked_time, and compared (targets hit, shocks recovered, whole path, other shocks unchanged).",
+             "under method first_order (also frame by frame, force_split_frames=True) and, in level mode, stacked_time, and compared (targets hit, shocks recovered, whole path, "
+             "other shocks unchanged); two scenarios with the same plan are also run as the two variants of one input databox.",
         note="Trusted: TLC, numpy primitives, the neqs solver for stacked_time. Bounds: library models L1, L2, L3, L9; <= 2 (target, instrument) pairs. Anticipated plans "
-             "are combined with anticipated base shocks only (mixing them with later surprises is not specified). One known finding (stacked_time ignores "
-             "unanticipated targets dated differently from their instrument).",
+             "are combined with anticipated base shocks only (mixing them with later surprises is not specified). Two known findings (stacked_time ignores "
+             "unanticipated targets dated differently from their instrument; frame-by-frame first_order fails when a frame break separates an unanticipated instrument from its target).",
         design="5/C07", technique="TLA+ spec (PlansMC over LinearRE) model-checked by TLC; every TLC-computed scenario replayed into irispie"),
     "C18": dict(
         text="Ols.tla lays out the VAR regressors, selects exactly the complete periods and solves the normal equations exactly (LinSolve); TLC "
@@ -145,7 +149,7 @@ CLAIMED = {
              "behaviour; simulated behaviours over three handles are replayed through irispie (real CSV files and Dataslates) and after every "
              "step names, contents, descriptions, frequencies and the object-sharing structure of all handles are compared. In the other direction a "
              "seeded driver builds random databoxes (all six frequencies, 1-3 variants, NaN and infinite values, empty series, numbers, lists, descriptions "
-             "with commas and quotes) and applies random operations incl. CSV round trips with round / frequency_span / delimiter / nan_str options; TLC "
+             "with commas and quotes) and applies random operations incl. CSV round trips with round / frequency_span / delimiter / nan_str / start_period_only / ISO-date options; TLC "
              "validates every recorded history against the actions of Databox.tla (TraceDatabox.tla), the CSV step relationally (values read back are "
              "multiples of 10^-round within half a unit); corrupted histories must be rejected at the corrupted line.",
         note="Trusted: TLC (simulation mode: behaviours are sampled, not exhaustive). Bounds: 9 initial items (Q/M/I series, 1-2 variants, an empty "
@@ -180,7 +184,7 @@ CLAIMED = {
         text="Series.tla defines every public operation as a transformer of the (period, variant) -> value map; TLC checks the laws of the "
              "property (write frame, read, purity of functional forms, canonical trimmed span, shift exactness) on every small series state x "
              "operation instance and isolation between handles on operation histories; all these transitions and simulated histories over "
-             "three handles are replayed through irispie.Series and compared cell by cell, with storage aliasing observed directly. In the other direction "
+             "three handles (incl. the in-place writer replace_where and a series rebuilt from another one's start and data array) are replayed through irispie.Series and compared cell by cell, with storage aliasing observed directly. In the other direction "
              "a seeded driver applies random operations (windows of 40 periods, values -9..9, 1-4 variants, 4 handles, 30 steps, six frequencies) to real "
              "Series objects, logs every handle after every step, and TLC validates each recorded history against SeriesHist's own step relation "
              "(TraceSeries.tla); a history with one corrupted field must be rejected at exactly that line (checked on every run).",
